@@ -530,7 +530,6 @@ impl World {
                 return true;
             }
             Kind::Sgdt { .. } | Kind::Sidt { .. } | Kind::Int3 => return false,
-            _ => return false,
         }
         ctx.set_rip(next);
         true
@@ -561,7 +560,7 @@ impl World {
     unsafe fn mon_peek(&mut self, ctx: &mut Ctx) {
         loop {
             let rip = ctx.rip();
-            if rip == usim_mon_exit_point as usize as u64 {
+            if rip == usim_mon_exit_point as *const () as usize as u64 {
                 self.mon_active = false;
                 ctx.set_eflags(ctx.eflags() & !0x100);
                 return;
@@ -665,7 +664,7 @@ unsafe fn install_handlers() {
     libc::sigaltstack(&ss, core::ptr::null_mut());
     for sig in [libc::SIGSEGV, libc::SIGILL, libc::SIGBUS, libc::SIGTRAP] {
         let mut sa: libc::sigaction = core::mem::zeroed();
-        sa.sa_sigaction = on_signal as usize;
+        sa.sa_sigaction = on_signal as *const () as usize;
         sa.sa_flags = libc::SA_SIGINFO | libc::SA_ONSTACK | libc::SA_NODEFER;
         libc::sigemptyset(&mut sa.sa_mask);
         libc::sigaction(sig, &sa, core::ptr::null_mut());
